@@ -22,6 +22,11 @@ import PcbV.Lemmas.UserFnCall
   parameters that did not exist before, which now exist and read empty/zero — reads what it read
   before; the flags are reset and no root stays registered.
 
+  `call_preserves_all_variables` restates it for parameters written with or without a type character
+  under any history of DEFINT/DEFSNG/DEFDBL/DEFSTR statements: the names are completed with the table
+  current at the call — the SAME completed names for the save, the binding and the restore
+  (`saved_names_are_bound_names`).
+
   Not proved (gap, covered by the correspondence run only): that the concrete evaluator `evalE` of the
   driver (which keeps operands of `+` on the root stack, `withRoot`) is `Framed`.
 -/
@@ -473,6 +478,78 @@ theorem result_is_body_value (f : Fn) (args : List Comp) (body : Comp) (s s' : S
           show Wr tE.h (writeAll false saved { tE with busy := tE.busy.erase f.idx }).h
           exact hgen saved { tE with busy := tE.busy.erase f.idx }
         exact deref_congr tE.h _ p this.vs this.cs this.code this.strs
+
+/-- **call_preserves_all_variables** — the same for a function whose parameters are written with or
+    without type characters, under ANY history of DEFINT/DEFSNG/DEFDBL/DEFSTR statements executed
+    before the call (before the DEF FN, between DEF FN and the first call, between calls): the names
+    are completed with the table current at the call, for the save, the binding and the restore alike,
+    and no variable of any type and any name reads differently afterwards. -/
+theorem call_preserves_all_variables (hist : List (Ty × Nat × Nat)) (idx : Nat) (fname : Bytes)
+    (params : List Bytes) (args : List Comp) (body : Comp)
+    (hargs : ∀ c ∈ args, Framed c) (hbody : Framed body) (s : St) (hw : WF s.h) :
+    let dt : DefTy := hist.foldl (fun d x => setDefTy d x.1 x.2.1 x.2.2) defTy0
+    let f : Fn := ⟨idx, sigil fname, params.map (completeName dt)⟩
+    let s' := after (evaluate f args body s)
+    (∀ name, readStr s' name = readStr s name) ∧ (∀ name, getNum s' name = getNum s name) ∧
+    s'.busy = s.busy ∧ s'.h.stack.length = s.h.stack.length ∧ WF s'.h :=
+  fn_frame _ args body hargs hbody s hw
+
+/-- the variables saved (and restored) are exactly the parameter names of the call, and every variable
+    that is bound is one of them: save, bind and restore use one and the same completion of the names -/
+theorem saved_names_are_bound_names (f : Fn) (args : List Comp) (s s4 : St) (saved : List (Bytes × Slot))
+    (he : enter f args s = .ok (s4, saved)) :
+    saved.map (·.1) = f.params ∧
+    ∃ s1 s2 av, evalArgs (f.params.zip args) s = .ok (s1, av) ∧ saveAll f.params s1 = .ok (s2, saved) ∧
+      s4 = { writeAll true av s2 with busy := f.idx :: (writeAll true av s2).busy } ∧
+      av.map (·.1) = (f.params.zip args).map (·.1) := by
+  have hnames : ∀ (ps : List Bytes) (t t' : St) (l : List (Bytes × Slot)),
+      saveAll ps t = .ok (t', l) → l.map (·.1) = ps := by
+    intro ps
+    induction ps with
+    | nil => intro t t' l h; simp only [saveAll] at h; cases h; rfl
+    | cons n r ih =>
+      intro t t' l h
+      simp only [saveAll] at h
+      cases hev : ensureVar n t with
+      | error x => rw [hev] at h; cases h
+      | ok t1 =>
+        rw [hev] at h
+        simp only at h
+        split at h
+        · cases hs : saveAll r (pushRoot t1 (((cellOf t1.h n).bind (getV t1.h)).getD Ptr.null)) with
+          | error x => rw [hs] at h; cases h
+          | ok x => obtain ⟨t2, l2⟩ := x; rw [hs] at h; cases h; simp [ih _ _ _ hs]
+        · cases hs : saveAll r t1 with
+          | error x => rw [hs] at h; cases h
+          | ok x => obtain ⟨t2, l2⟩ := x; rw [hs] at h; cases h; simp [ih _ _ _ hs]
+  have hargsn : ∀ (L : List (Bytes × Comp)) (t t' : St) (l : List (Bytes × Slot)),
+      evalArgs L t = .ok (t', l) → l.map (·.1) = L.map (·.1) := by
+    intro L
+    induction L with
+    | nil => intro t t' l h; simp only [evalArgs] at h; cases h; rfl
+    | cons a r ih =>
+      intro t t' l h
+      obtain ⟨n, c⟩ := a
+      obtain ⟨s', v, v', _, _, hcase⟩ := arg_entry_is_converted_value n c r t t' l h
+      rcases hcase with ⟨_, q, rest, _, hl, hr⟩ | ⟨p, rest, _, hl, _, hr⟩
+      · rw [hl]; simp [ih _ _ _ hr]
+      · rw [hl]; simp [ih _ _ _ hr]
+  unfold enter at he
+  cases hev : evalArgs (f.params.zip args) s with
+  | error x => rw [hev] at he; cases he
+  | ok x =>
+    obtain ⟨s1, av⟩ := x
+    rw [hev] at he
+    simp only at he
+    split at he
+    · cases he
+    · cases hsv : saveAll f.params s1 with
+      | error x => rw [hsv] at he; cases he
+      | ok y =>
+        obtain ⟨s2, sv⟩ := y
+        rw [hsv] at he
+        cases he
+        exact ⟨hnames _ _ _ _ hsv, s1, s2, av, rfl, hsv, rfl, hargsn _ _ _ _ hev⟩
 
 /-! ### non-vacuity -/
 
